@@ -129,7 +129,7 @@ def second_table(case, base):
         out['VD'] += 0.1 * pert
         out['roll'] += 0.5 * pert
         out['pitch'] -= 0.4 * pert
-        out['heading'] = T.wrap180(out['heading'] + 0.7 * pert)
+        out['heading'] = T.wrap180(out['heading'] + 6.5 * pert)      # several rows then straddle +-180 between the two tables
         return out
     if rel == 'identical':
         return base.copy(), 'same_grid'
